@@ -59,7 +59,11 @@ def schedule_case(draw):
     # earlier calls that look almost like the call under test: same data with another sparsity weight / switching cost, and
     # other data of the same shape from the same RNG seeds (module-level memo tables keyed too coarsely show here)
     base = {k: v for k, v in cfg.items()}
-    kind = draw(st.sampled_from(["none", "same_data_other_lambda", "same_shape_other_data", "both"]))
+    kind = draw(st.sampled_from(["none", "same_data_other_lambda", "same_shape_other_data", "both", "failed_call_same_data", "failed_call_same_data"]))
+    if kind == "failed_call_same_data":
+        # the same data and seeds with another sparsity weight, in a call that raises after its first (or second) optimisation
+        hist.append(dict(base, lam=0.5 if base["lam"] != 0.5 else 0.01, lam_form="scalar", limit=max(base["limit"], 2),
+                         fail_in_relabel_of_round=draw(st.sampled_from([0, 0, 1]))))
     if kind in ("same_data_other_lambda", "both"):
         hist.append(dict(base, lam=0.5 if base["lam"] != 0.5 else 0.01, lam_form="scalar", beta=base["beta"] + 1.0))
     if kind in ("same_shape_other_data", "both"):
